@@ -1,5 +1,6 @@
 pub mod normalize;
 pub mod values;
+pub mod wire;
 
 use crate::rng::Rng;
 
@@ -17,6 +18,8 @@ pub struct Outcome {
     pub fails: Vec<String>,
     /// Tags for the input-distribution statistics; `nontrivial` marks non-trivial cases.
     pub tags: Vec<String>,
+    /// Raw documents produced by the real code (e.g. JSON texts for schema validation).
+    pub docs: Vec<String>,
 }
 
 pub trait Suite {
@@ -34,6 +37,7 @@ pub fn by_name(name: &str) -> Option<Box<dyn Suite>> {
     Some(match name {
         "values" => Box::new(values::Values),
         "normalize" => Box::new(normalize::Normalize),
+        "wire" => Box::new(wire::Wire),
         _ => return None,
     })
 }
